@@ -230,6 +230,18 @@ fn oracle_links(case: &[u8], obs: &mut Obs) -> Result<(), String> {
             let n = bound(NoteIterator::new(e, class, align, &data), len as u64 / 12 + 1, "NoteIterator")?;
             bound(ParsingIterator::<_, elf::relocation::Rela>::new(e, class, &data), len as u64, "RelaIterator")?;
             bound(ParsingIterator::<_, elf::symbol::Symbol>::new(e, class, &data), len as u64, "ParsingIterator<Symbol>")?;
+            // the same through standard iterator adaptors on an already advanced iterator
+            let mut it = ParsingIterator::<_, elf::relocation::Rel>::new(e, class, &data);
+            let _ = it.next();
+            let mut k = 0u64;
+            while it.nth(0).is_some() {
+                k += 1;
+                if k > len as u64 {
+                    return Err(format!("RelIterator driven with nth(0) over {} bytes yielded more than {} items", len, len));
+                }
+            }
+            bound(ParsingIterator::<_, elf::dynamic::Dyn>::new(e, class, &data).step_by(2), len as u64, "ParsingIterator<Dyn>.step_by(2)")?;
+            bound(NoteIterator::new(e, class, align, &data).skip(1).step_by(3), len as u64, "NoteIterator.skip(1).step_by(3)")?;
             executed = true;
             adversarial = len % 12 != 0 && n > 0;
             desc = json!({"family": "partial_records", "len": len, "align": align, "notes": n});
